@@ -591,3 +591,34 @@ fn test_decode_macro_string() {
         "[)>\x1e06\x1dA\x1e\x04",
     );
 }
+
+#[cfg(datamatrix_verif)]
+pub mod verif {
+    use super::{DataDecodingError, Reader};
+    use alloc::vec::Vec;
+
+    /// Run `read_eci`, returns the number of codewords consumed and the ECI.
+    pub fn read_eci(data: &[u8]) -> Result<(usize, u32), DataDecodingError> {
+        super::read_eci(Reader(data, 0)).map(|(rest, eci)| (rest.1, eci))
+    }
+
+    /// Run `decode_parts`, returns output, ECI spans and the FNC1 flag.
+    #[allow(clippy::type_complexity)]
+    pub fn decode_parts(
+        data: &[u8],
+        raw: bool,
+    ) -> Result<(Vec<u8>, Vec<(usize, u32)>, bool), DataDecodingError> {
+        super::decode_parts(data, raw).map(|p| (p.output, p.eci_spans, p.fnc1))
+    }
+
+    /// The lookup tables of the C40/Text decoder: base C40, shift 3 C40, base Text, shift 3 Text, shift 2.
+    pub fn c40_tables() -> [&'static [u8]; 5] {
+        [
+            super::BASE_C40,
+            super::SHIFT3_C40,
+            super::BASE_TEXT,
+            super::SHIFT3_TEXT,
+            super::SHIFT2,
+        ]
+    }
+}
